@@ -8,6 +8,20 @@ from .common import ob_dict, run_jobs
 PREFIXES = ['', 'p_', 'a', 'amplitude', 'loc', 'a0', 'scale_', 'x' * 3, 'é']
 
 
+def adversarial_names(prefix, name, all_names):
+    """Keys that differ from prefix + name but would pass a sloppy check (same length, prefix dropped / doubled / truncated,
+    suffix added, another case).  Names that are valid keys of the model are excluded."""
+    valid = {prefix + n for n in all_names}
+    alt = ''.join('y' if c == 'z' else chr(ord(c) + 1) if c.isascii() and c.isalnum() and c not in 'zZ9' else 'q' for c in prefix)
+    cands = [alt + name, name if prefix else None, prefix + name + '_', '_' + prefix + name, (prefix[:-1] + name) if prefix else None,
+             (prefix + prefix + name) if prefix else None, (prefix + name).upper(), prefix + name[1:], prefix + ' ' + name, name + prefix if prefix else None]
+    out = []
+    for c in cands:
+        if c is not None and c not in valid and c not in out and c.isidentifier() or (c is not None and ' ' in c and c not in valid and c not in out):
+            out.append(c)
+    return out
+
+
 class SymMath:
     """math stand-in: pi, sqrt and log(2) as symbolic constants with their defining equations."""
 
@@ -176,6 +190,23 @@ def job_peak(j, seed):
         obs.append(ob_dict(ob))
         if not ok:
             cands.append(('C16:params', case, f'{what} parameters accepted'))
+    # near-miss names: a key that is not exactly prefix + name is refused, whether it replaces the right key or comes on top
+    accepted = []
+    for pname in params:
+        for key in adversarial_names(prefix, pname, set(params)):
+            full = {prefix + k_: v for k_, v in params.items()}
+            for mode in ('replaces', 'extra'):
+                bp = dict(full)
+                if mode == 'replaces':
+                    del bp[prefix + pname]
+                bp[key] = params[pname]
+                for p_ in C.explore(lambda bp=bp: model(xs([m_]), **bp), max_paths=4)[:1]:
+                    if p_.exc is None or not isinstance(p_.exc, ValueError):
+                        accepted.append((key, mode, pname))
+    ob = C.prove(f'{tag}:near-miss parameter names refused with ValueError' + (f': accepted {accepted[:3]}' if accepted else ''), C.B.const(not accepted))
+    obs.append(ob_dict(ob))
+    if accepted:
+        cands.append(('C16:params', {**case, 'near_miss': [list(a) for a in accepted[:5]]}, f'near-miss parameter name accepted: {accepted[0]}'))
     ob = C.prove(f'{tag}:param_names carry the prefix', C.B.const(model.param_names == {prefix + k_ for k_ in params}))
     obs.append(ob_dict(ob))
     # with_prefix gives an independent model
@@ -329,6 +360,16 @@ def replay_real(case):
             bad.append('missing parameter accepted')
         except ValueError:
             pass
+        for key, mode, pname in case.get('near_miss', []):
+            bp = dict(P)
+            if mode.startswith('replaces'):
+                bp.pop(pre + pname, None)
+            bp[key] = P[pre + pname]
+            try:
+                m(sc.array(dims=['x'], values=[0.0], unit='us'), **bp)
+                bad.append(f'model with prefix {pre!r} accepts the parameter name {key!r} ({mode} {pre + pname!r})')
+            except ValueError:
+                pass
     elif kind == 'polynomial':
         deg = case['degree']
         m = M.PolynomialModel(degree=deg, prefix=pre)
